@@ -36,7 +36,7 @@ def tweak(rng, row, w, case):
 def case_kw(rng, row):
     kw = {'mpu': False, 'mmu': False, 'e': rng.choice((0, 0, 0, 1))}
     if row.name in ('RFE_A1', 'RFE_T1', 'RFE_T2', 'LDM_eret_A1', 'LDM_user_A1', 'STM_user_A1', 'SRS_A1', 'SRS_T1', 'SRS_T2') and rng.random() < 0.85:
-        kw['mode'] = rng.choice(('svc', 'irq', 'fiq', 'abt', 'und', 'svc'))
+        kw['mode'] = rng.choice(('svc', 'irq', 'fiq', 'abt', 'und', 'svc', 'mon'))          # ('mon' falls back to a random mode where the configuration has none)
     return kw
 
 
@@ -79,7 +79,7 @@ def shape_list(row, w, entropy):
     return w
 
 
-PLAN = e1prop.Plan('C03', ROWS, cfgs=('v6', 'v7', 'v5'), classify=classify, case_kw=case_kw, tweak_case=tweak, tweak_word=shape_list)
+PLAN = e1prop.Plan('C03', ROWS, cfgs=('v6', 'v7', 'v5', 'v7-virt'), classify=classify, case_kw=case_kw, tweak_case=tweak, tweak_word=shape_list)
 
 
 PAIRS = [  # (store row, load row, base: 13 or None (random Rn), thumb, list mask)
